@@ -5,7 +5,6 @@
 import VotelibDriver.Json
 import VotelibModel.Persist
 import VotelibModel.Blt
-import VotelibModel.StvFile
 open Lean
 namespace VL.Drv.C19
 open VL VL.Persist
@@ -59,6 +58,7 @@ partial def pvalOfJson (j : Json) : Except String PVal := do
         let s ← j.getObjValAs? Bool "self"
         pure (.callable n s)
     | "opaque" => do let s ← j.getObjValAs? String "tag"; pure (.opaque s)
+    | "ncallable" => do let s ← j.getObjValAs? String "tag"; pure (.ncallable s)
     | _ => throw s!"bad pval tag {t}"
 
 partial def pvalJson : PVal → Json
@@ -79,6 +79,7 @@ partial def pvalJson : PVal → Json
       ("p", Json.arr (ps.map (fun p => Json.arr #[Json.str p.1, pvalJson p.2])).toArray)]
   | .callable n s => Json.mkObj [("t", "callable"), ("n", Json.str n), ("self", Json.bool s)]
   | .opaque s => Json.mkObj [("t", "opaque"), ("tag", Json.str s)]
+  | .ncallable s => Json.mkObj [("t", "ncallable"), ("tag", Json.str s)]
 
 /-! #### J <-> JSON (tagged: null, bool, {"i": "123"}, {"f": repr}, "str", [..], {"d": [[k, v], ..]}) -/
 partial def jOfJson (j : Json) : Except String J := do
@@ -117,8 +118,9 @@ def envOfJson (j : Json) : Except String Env := do
   | .ok e => do
       let cs ← e.getObjValAs? (List String) "classes"
       let fs ← e.getObjValAs? (List String) "callables"
-      pure { classes := cs, callables := fs }
-  | .error _ => pure { classes := [], callables := [] }
+      let os := (e.getObjValAs? (List String) "others").toOption.getD []
+      pure { classes := cs, callables := fs, others := os }
+  | .error _ => pure { classes := [], callables := [], others := [] }
 
 def resJson {α} (f : α → Json) : Except Err α → Json := exceptJson f
 
@@ -230,6 +232,6 @@ def handle (op : String) (j : Json) : Option (Except String Json) :=
     let ls ← (← j.getObjVal? "lines").getArr?
     let lines ← ls.toList.mapM lineOfJson
     pure (Json.mkObj [("loaded", resJson docJson (Blt.loadBlt lines))])
-  | _ => StvFile.handleStv op j
+  | _ => none
 
 end VL.Drv.C19
